@@ -1,5 +1,5 @@
 """Configuration of ./check C14: harness streams (name, n_quick, n_thorough), rule text, theorem names; MANIFEST texts."""
-PROP = {'streams': [('c14', 2500, 120000)],
+PROP = {'streams': [('c14', 2500, 120000), ('c14typed', 40, 2000)],
  'definitional': False,
  'rule': 'schema worlds of gen_schema.rs (65%) and a fixed reference-chain world (35%) x 1-5 strictly valid static policies (gen_typed.rs / chain '
          'pool, mostly about one action) x a conformant request and store, from which the partial inputs are obtained by ERASING: principal id, '
@@ -10,7 +10,7 @@ PROP = {'streams': [('c14', 2500, 120000)],
          'concrete evaluator, reauthorize vs concrete vs the policies() view; views compared id by id; query_resource / query_principal vs brute '
          'force on the original and the last completion; query_action vs every applicable action on every completion; non-trivial = something '
          'erased and at least one residual-class policy; distinct by policies + partial request + partial store'
-         "; 20% of the cases are the set-membership family: a fixed world with set-valued context fields / entity attributes (entities, longs, strings), sets shrunk to empty (45%) or singleton (25%), policies <set>.contains/containsAny/containsAll(<operand>) (both orders) whose operand stays residual and errors on some completions (attribute chains through entities absent from the completion's store, guarded optional attributes / tags, overflowing arithmetic), under ! || && if in when/unless of permits and forbids; context mostly known, resource mostly unknown",
+         "; 20% of the cases are the set-membership family: a fixed world with set-valued context fields / entity attributes (entities, longs, strings), sets shrunk to empty (45%) or singleton (25%), policies <set>.contains/containsAny/containsAll(<operand>) (both orders) whose operand stays residual and errors on some completions (attribute chains through entities absent from the completion's store, guarded optional attributes / tags, overflowing arithmetic), under ! || && if in when/unless of permits and forbids; context mostly known, resource mostly unknown; stream c14typed (typed-AST correspondence): schema worlds of gen_schema.rs (1/2) and chain worlds (1/2) x 4 strictly valid + 3 near-valid (near-miss guards, ill-typed plants) static policies (+ 3 chain and 3 const-operand policies of c16.rs on chain worlds: && || if with operands typed True/False) x up to 4 request environments of the schema, two lines each (erased shape; every node's type); non-trivial = distinct (condition, environment, schema) with a typed expression handed back",
  'theorems': ['tpe_table_sound', 'views_agree', 'policy_set_presents_originals', 'views_agree_full_fails', 'interpret_sound',
               'interpret_sound_outcomes', 'interpret_keeps_typeSafe', 'can_error_analysis_sound', 'tpe_decision_sound',
               'interpret_sound_partial', 'opBool_all_unsatisfiable', 'query_exact', 'query_action_sound', 'query_resource_exact',
@@ -30,8 +30,13 @@ PROP = {'streams': [('c14', 2500, 120000)],
                  'ValidTyped (static policies in the strict fragment accepted by checkPolicy .strict in every environment, typed condition = '
                  'erasure of annotate for the environment of the partial request), Conformant completion (ConformsRequest, StoreConforms, '
                  'ActionsPresent), Completes',
-                 'that the typed expression Rust hands to TPE IS the erasure of Level.annotate is not proved (annotate is a mirror, tied to '
-                 'Rust through the C16 differential run of the level checker; the C14 run feeds the model the typed expression Rust computed)',
+                 'IsTypedFor / typedPolicy (the typed expression Rust hands to TPE IS the erasure of Level.annotate .strict s env cond []) is not '
+                 'proved but CHECKED by the typedast correspondence stream c14typed (harness/src/c14_typed.rs, driver op Driver/Ops/TypedAst.lean): '
+                 'per (schema, policy, request environment) the model prints annotate(...).erase and Rust prints '
+                 'typecheck_by_single_request_env(...).into_expr() (Success / Irrelevant / Fail as success / irrelevant / (err)), and a second line '
+                 'compares the Type annotation of EVERY node (Rust expr.data() vs typeOf under the capabilities in force at that node; the decorated '
+                 'tree is checked at run time to be literally annotate\'s TExpr); quick run: 2068 c14typed lines (1034 (policy, environment) pairs: 318 success, 674 irrelevant, 42 rejected; 699 typed expressions differ from the condition by a dropped operand / duplicated branch) + 3446 typedast lines (1723 pairs: 1036 success, 687 irrelevant) that the c14 stream emits for the policies and environment of every 4th TPE case, 0 disagreements, 0 outside-model; '
+                 'the c14 stream itself still feeds the model the typed expression Rust computed',
                  'interpret soundness is proved over Residual.eval (a Concrete residual evaluates to its value; ofExpr_eval ties it to '
                  'evaluate on the typed expression); the passage through Value -> Expr of the real reauthorization is covered by the '
                  'differential run (tpe-re lines) only']}
